@@ -1,9 +1,138 @@
 package main
 
-import "verifharness/hx"
+import (
+	"fmt"
 
+	"verifharness/hx"
+)
+
+// corpus: fixed witnesses, each a case of its own on the standard base (no random tags).
+//  1. every tricky string as a plain and as a searchable tag value, on base and overlay features — before
+//     fixes/C18-export-values-explicit.patch the lat,lng- / id- / list-looking ones came back as another kind
+//     (and searchable ones under another token);
+//  2. an integral float (came back as an int), a feature without tags (was dropped by the import), a literal
+//     polygon with 1e-7 degree vertices (was rounded to 1e-6 by "%f");
+//  3. FINDING yaml-null-string: a tag value "null" / "~" makes the exported file undecodable;
+//  4. FINDING import-intermediate-state: (a) a ring dragged east vertex by vertex — the import applies the final
+//     positions one at a time to the base ring and is rejected ("ordered clockwise"); (b) a ring re-routed
+//     away from a point which then loses its location — the point is imported before the ring;
+//  5. relations that contain each other and themselves; stale modified tags of a copied referrer; the
+//     point-with-one-tag rule on import.
 func corpus(c *hx.Ctx) {
+	r := hx.NewRand(18)
+	all := [][]string{plainStrings, numericStrings, latlngStrings, idStrings, punctStrings, unicodeStrings, yamlStrings}
+
+	// 1
 	k := newCase(c)
-	k.StandardBase(hx.NewRand(1), false)
+	k.StandardBase(r, false)
+	targets := []int{1, 6, 1007, 1008, 2009, 3010, 4011}
+	n := 0
+	for _, class := range all {
+		for _, s := range class {
+			if !modelled(s) {
+				continue
+			}
+			id := targets[n%len(targets)]
+			key := allKeys[n%len(allKeys)]
+			k.AddTag(id, Tag{key, sv(s)})
+			n++
+			if n%9 == 0 {
+				k.AddFeature(pointFeat(21+n%3, posOf(21+n%3, n), Tag{"name", sv(s)}, Tag{"#amenity", sv(s)}))
+			}
+		}
+	}
 	k.Finish()
+	for _, class := range append(all, nullStrings) {
+		for _, s := range class {
+			if modelled(s) {
+				k.Infer(s)
+				k.Roundtrip(sv(s))
+			}
+		}
+	}
+	for _, v := range []string{"i:5", "i:-9223372036854775808", floatAtom(2), floatAtom(2.5), floatAtom(1e21), "f:nan", "f:7ff0000000000000",
+		"p:515000000:-1200000", idAtom(4011), "l:", "l:s:61", "l:s:61|i:3", "l:s:312c32|s:78", "l:" + idAtom(1) + "|p:1:2", "l:s:6e756c6c"} {
+		k.Roundtrip(v)
+	}
+
+	// 2
+	c.Comment("integral float, feature without tags, literal polygon")
+	k = newCase(c)
+	k.StandardBase(r, false)
+	k.AddTag(6, Tag{"note", floatAtom(2)})
+	k.AddTag(1007, Tag{"#highway", floatAtom(3)})
+	k.AddFeature(Feat{ID: 22, Body: "g"})
+	k.AddFeature(Feat{ID: 5, Body: "g"})
+	k.AddFeature(Feat{ID: 2027, Body: "a:p515370213_-1250817~515360127_-1251339~515359871_-1240433;i1007", Tags: []Tag{{"name", sv("1,2")}}})
+	k.AddFeature(Feat{ID: 4030, Body: "c:" + sv("1,2") + ">" + floatAtom(2) + "," + sv("/point/x/1") + ">" + sv("a;b") + "," + idAtom(1) + ">" + sv("123")})
+	k.Finish()
+
+	// 3
+	for _, s := range nullStrings {
+		c.Comment("finding yaml-null-string")
+		k = newCase(c)
+		k.StandardBase(r, false)
+		k.AddTag(6, Tag{"note", sv(s)})
+		k.AddFeature(pointFeat(21, posOf(21, 0)))
+		k.Finish()
+	}
+	k = newCase(c)
+	k.StandardBase(r, false)
+	k.AddFeature(pointFeat(21, posOf(21, 0), Tag{"name", sv("null")}))
+	k.AddFeature(Feat{ID: 3028, Body: "r:21~" + hx16("null")})
+	k.Finish()
+
+	// 4a
+	c.Comment("finding import-intermediate-state: ring dragged east")
+	k = newCase(c)
+	k.StandardBase(r, false)
+	pos := map[int][2]int{}
+	for id := 1; id <= 4; id++ {
+		pos[id] = posOf(id, 0)
+	}
+	for step := 0; step < 12; step++ {
+		for _, id := range []int{4, 3, 1, 2} {
+			p := pos[id]
+			p[1] += 3000
+			if k.AddFeature(pointFeat(id, p)) == "ok" {
+				pos[id] = p
+			}
+		}
+	}
+	k.Finish()
+	// 4b
+	c.Comment("finding import-intermediate-state: ring re-routed, point loses its location")
+	k = newCase(c)
+	k.StandardBase(r, false)
+	k.AddFeature(pathFeat(1007, idAtoms(2, 3, 4, 2)))
+	k.AddFeature(Feat{ID: 1, Body: "g", Tags: []Tag{{"name", sv("gone")}}})
+	k.Finish()
+	c.Comment("finding import-intermediate-state: area re-pointed, its old ring opened")
+	k = newCase(c)
+	k.StandardBase(r, false)
+	k.AddFeature(Feat{ID: 2009, Body: "a:p515304998_-1295975~515304998_-1285963~515315003_-1295975"})
+	k.AddFeature(pathFeat(1007, idAtoms(1, 2, 3)))
+	k.Finish()
+
+	// 5
+	c.Comment("relation cycles, stale modified tags, point-with-one-tag rule")
+	k = newCase(c)
+	k.StandardBase(r, false)
+	k.AddFeature(Feat{ID: 3028, Body: fmt.Sprintf("r:3028~%s,1~%s", hx16("self"), hx16("a"))})
+	k.AddFeature(Feat{ID: 3029, Body: fmt.Sprintf("r:3028~%s", hx16("x"))})
+	k.AddFeature(Feat{ID: 3028, Body: fmt.Sprintf("r:3029~%s,3028~%s", hx16("y"), hx16("self"))})
+	k.AddFeature(Feat{ID: 4030, Body: "c:" + idAtom(4030) + ">i:1," + idAtom(3028) + ">i:2"})
+	k.AddTag(1007, Tag{"note", sv("x")})
+	k.AddTag(2009, Tag{"name", sv("1,2")})
+	k.AddFeature(pointFeat(1, posOf(1, 1)))
+	k.RemoveTag(1007, "note")
+	k.AddTag(5, Tag{"note", sv("one")})
+	k.AddTag(6, Tag{"note", sv("/point/ns/1")})
+	k.RemoveTag(6, "ref")
+	k.AddTag(2, Tag{"name", sv("a;b")})
+	k.RemoveTag(2, "name")
+	k.AddTag(3, Tag{"name", sv("51.5,-0.12")})
+	k.AddTag(4, Tag{"#amenity", sv("51.50, -0.120")})
+	k.Finish()
+	c.NonTrivial()
 }
